@@ -40,6 +40,16 @@ __datatypes_constructors = {}
 __datatypes_selectors = {}
 
 
+def __formal_names(params):
+    """Return the names in the parameter list ``((p S) ...)``."""
+    if params.is_leaf():
+        return []
+    return [
+        p[0].data for p in params
+        if not p.is_leaf() and len(p) > 0 and p[0].is_leaf()
+    ]
+
+
 def collect_information(exprs):  # noqa: C901
     """Initialize global lookups for first-order constants, defined functions
     and sorts of all these symbols."""
@@ -104,13 +114,20 @@ def collect_information(exprs):  # noqa: C901
             __definition_node_ids.add(cmd[1].id)
             __definition_node_ids.add(cmd[4].id)
             __sort_lookup[cmd[1].data] = cmd[3]
+            # the formal parameters are bound in the body
+            __other_symbols.update(__formal_names(cmd[2]))
         if name == 'define-fun-rec' and len(cmd) > 1 and cmd[1].is_leaf():
             __other_symbols.add(cmd[1].data)
+            if len(cmd) > 2:
+                __other_symbols.update(__formal_names(cmd[2]))
         if name == 'define-funs-rec' and len(cmd) > 1 \
            and not cmd[1].is_leaf():
             __other_symbols.update(
                 decl[0].data for decl in cmd[1]
                 if not decl.is_leaf() and len(decl) > 0 and decl[0].is_leaf())
+            for decl in cmd[1]:
+                if not decl.is_leaf() and len(decl) > 1:
+                    __other_symbols.update(__formal_names(decl[1]))
         if name in ['declare-datatype', 'declare-datatypes'] and len(cmd) == 3:
             # parametric datatypes: (par (X ..) (constructor ..))
             for n in nodes.dfs(cmd[2], max_depth=2):
